@@ -21,6 +21,7 @@ type CaseC11 struct {
 	AltKey       bool      // also exercise the altitude-key variant (inputs have v <= 25)
 	BigPre       bool      // sweep only: the process first performs one conversion with > 2^21 pairs that contains this case's pairs
 	E, Off       int64
+	Reuse        int64 `json:",omitempty"` // != 0: pair objects are re-used objects filled through their setters (objects.go)
 }
 
 func genLeadingZeroIndex(t *rapid.T, label string, h int64) int64 {
@@ -143,6 +144,7 @@ func genC11(t *rapid.T) *CaseC11 {
 		// offset that keeps the keys non-negative for the (possibly negative) inputs
 		c.Off = int64(1)<<25 + rapid.Int64Range(-5, 5).Draw(t, "off")
 	}
+	c.Reuse = genReuse(t)
 	return c
 }
 
@@ -231,7 +233,17 @@ func checkC11(c *CaseC11, fl *Fails) {
 			if p[0] < 0 || p[0] >= lim {
 				fl.Add("key-range", "quadkey %d outside 0..4^%d-1", p[0], c.OutH)
 			}
-			list = append(list, object.NewQuadkeyAndVerticalID(c.OutH, p[0], c.OutV, p[1], 0, 0))
+			reuse := c.Reuse
+			if reuse != 0 {
+				reuse += int64(len(list)) * 977
+			}
+			q := mkQK(reuse, c.OutH, p[0], c.OutV, p[1], 0, 0)
+			if reuse != 0 {
+				if a, b := qkFields(q), qkFields(object.NewQuadkeyAndVerticalID(c.OutH, p[0], c.OutV, p[1], 0, 0)); a != b {
+					fl.Add("object-setters", "a re-used QuadkeyAndVerticalID filled through its setters (order %v) reports %s, a constructed one %s", permOf(reuse/31, 6), a, b)
+				}
+			}
+			list = append(list, q)
 		}
 	}
 	for p, b := range want {
@@ -307,7 +319,7 @@ func checkC11(c *CaseC11, fl *Fails) {
 	}
 	// raw keys: decode then encode
 	for _, k := range c.Keys {
-		q := object.NewQuadkeyAndVerticalID(c.KeyZoom, k, 3, -2, 0, 0)
+		q := mkQK(c.Reuse, c.KeyZoom, k, 3, -2, 0, 0)
 		dec, err := transform.ConvertQuadkeysAndVerticalIDsToExtendedSpatialIDs([]*object.QuadkeyAndVerticalID{q}, c.KeyZoom, 3)
 		if err != nil || len(dec) != 1 {
 			fl.Add("decode", "decode key %d @%d: %v %v", k, c.KeyZoom, dec, err)
